@@ -9,7 +9,9 @@ B2: the real unix_nano_to_pv_string / convert_timestamp_to_unix_nano are called 
     the operators NsToPv / PvToNs / PvLess.  Nanosecond-precision instants (every grid instant with the sub-microsecond
     parts 1, 499, 500, 501, 999 ns, random ones, random ones in the last microsecond of a second) must be converted to
     the truncated or the next microsecond (NsToPv / NsToPvUp, carry into second and day checked by CarryOk), and pairs
-    of them 1 ns, 500 ns and 1000 ns apart must never come out in reversed order."""
+    of them 1 ns, 500 ns and 1000 ns apart must never come out in reversed order.  The conversions are repeated in
+    processes whose local time zone (TZ) is a daylight-saving zone of either hemisphere or a half-hour offset, on every
+    hour of the days on which daylight saving starts or ends somewhere: the results must be the same UTC strings."""
 import datetime
 import random
 import re
@@ -71,6 +73,29 @@ def instants(tier, seed):
     return grid, rand, subus
 
 
+# local time zones of the converting process (POSIX rule strings, no tz database needed): the conversions are between
+# UTC instants and UTC strings and must not depend on them.  Daylight-saving zones of both hemispheres, a fixed offset
+# with a half hour
+ZONES = ["GMT0BST,M3.5.0/1,M10.5.0/2", "EST5EDT,M3.2.0,M11.1.0", "CET-1CEST,M3.5.0,M10.5.0/3", "AEST-10AEDT,M10.1.0,M4.1.0/3",
+         "IST-5:30"]
+
+
+def switch_instants(tier):
+    """every hour (start, middle, last microsecond) of the Saturdays and Sundays on which daylight saving starts or ends
+    somewhere: second Sunday of March, last Sundays of March and October, first Sundays of April, October and November"""
+    out = []
+    for year in ((2024, 2099) if tier == "quick" else (1996, 2010, 2024, 2037, 2038, 2099)):
+        for month, lo, hi in ((3, 8, 14), (3, 25, 31), (4, 1, 7), (10, 1, 7), (10, 25, 31), (11, 1, 7)):
+            for day in range(lo, hi + 1):
+                dt = datetime.date(year, month, day)
+                if dt.weekday() == 6:
+                    for d in (dt - datetime.timedelta(days=1), dt):
+                        dn = (d - datetime.date(1970, 1, 1)).days
+                        for h in range(24):
+                            out += [join(dn, h * 3600, 0), join(dn, h * 3600 + 1800, 500000), join(dn, h * 3600 + 3599, 999999)]
+    return out
+
+
 def run(chk, tier, seed):
     cfg = "INIT Init\nNEXT Next\nINVARIANT RoundTripNs\nINVARIANT RoundTripPv\nINVARIANT Monotone\nINVARIANT NextDay\nINVARIANT CarryOk\n"
     self_r = tlc.run_tlc("PvTime", cfg, {"PvData": tlc.data_module("PvData", {"DayRange": "{}", "Obs": "<<>>"}, extends="Integers, Sequences")},
@@ -99,7 +124,16 @@ def run(chk, tier, seed):
              {"cid": "p2n", "op": "time_p2n", "ps": strings, "timeout": 600},
              {"cid": "ord", "op": "time_n2p", "xs": [v for pr in pairs for v in pr], "timeout": 600},
              {"cid": "ordw", "op": "time_n2p", "xs": [v for pr in wpairs for v in pr], "timeout": 600}]
-    res = learner.run_cases(cases, parallel=4)
+    sw = switch_instants(tier)
+    zx = sw + grid[::7]
+    zstrings = []
+    for x in sw:
+        dt = datetime.datetime(1970, 1, 1) + datetime.timedelta(microseconds=x // 1000)
+        zstrings.append(dt.strftime("%Y-%m-%dT%H:%M:%S.%fZ"))
+    for zi, tz in enumerate(ZONES):
+        cases.append({"cid": "n2p-z%d" % zi, "op": "time_n2p", "xs": zx, "tz": tz, "timeout": 600})
+        cases.append({"cid": "p2n-z%d" % zi, "op": "time_p2n", "ps": zstrings, "tz": tz, "timeout": 600})
+    res = learner.run_cases(cases, parallel=4 + 2 * len(ZONES))
     for c in cases:
         if not res[c["cid"]].get("ok"):
             raise RuntimeError("converter call failed: %s" % res[c["cid"]])
@@ -127,6 +161,28 @@ def run(chk, tier, seed):
             continue
         obs.append('[k |-> "n2p", x |-> %s, p |-> %s]' % (inst_tla(split(join(0, 0, 0) + PvToNsPy(fields(s)))), pv_tla(pb)))
         meta.append(("PV -> ns -> PV round trip", s, back))
+    # the same conversions in processes whose local time zone is not UTC
+    for zi, tz in enumerate(ZONES):
+        for x, out in zip(zx, res["n2p-z%d" % zi]["out"]):
+            p = fields(out) if isinstance(out, str) else None
+            if p is None:
+                bad_format("unix_nano_to_pv_string [TZ=%s]" % tz, x, out)
+                continue
+            obs.append('[k |-> "n2p", x |-> %s, p |-> %s]' % (inst_tla(split(x)), pv_tla(p)))
+            meta.append(("unix_nano_to_pv_string [TZ=%s]" % tz, x, out))
+        for s_, r in zip(zstrings, res["p2n-z%d" % zi]["out"]):
+            out, back = r
+            if not isinstance(out, int):
+                bad_format("convert_timestamp_to_unix_nano [TZ=%s]" % tz, s_, out)
+                continue
+            obs.append('[k |-> "p2n", p |-> %s, x |-> %s]' % (pv_tla(fields(s_)), inst_tla(split(out))))
+            meta.append(("convert_timestamp_to_unix_nano [TZ=%s]" % tz, s_, out))
+            pb = fields(back) if isinstance(back, str) else None
+            if pb is None:
+                bad_format("round trip [TZ=%s]" % tz, s_, back)
+                continue
+            obs.append('[k |-> "n2p", x |-> %s, p |-> %s]' % (inst_tla(split(PvToNsPy(fields(s_)))), pv_tla(pb)))
+            meta.append(("PV -> ns -> PV round trip [TZ=%s]" % tz, s_, back))
     outs = res["ord"]["out"]
     for k, (x, y) in enumerate(pairs):
         p, q = fields(outs[2 * k]), fields(outs[2 * k + 1])
@@ -177,6 +233,7 @@ def run(chk, tier, seed):
                    "instants in 1970..2100; one observation = one call of a converter (or a round trip / ordered pair); "
                    "non-trivial = distinct argument with a non-zero fractional second" % (
                        len(GRID_DAYS), len(GRID_SECS), len(GRID_US)),
+           "local_time_zones_of_the_converting_process": ZONES, "daylight_saving_switch_instants": len(sw),
            "grid_instants": len(grid), "random_instants": len(rand), "nanosecond_instants": len(subus),
            "nanosecond_ordered_pairs": len(wpairs), "mismatches": nbad,
            "spec_self_check_states": self_r.distinct, "spec_calendar_states_every_day_1970_2100": cal_r.distinct, "exhaustive": False,
